@@ -10,7 +10,9 @@ from harness.common import EPS_MONEY, bt
 
 BOUNDS = {
     'quick': 'shapes S1, S3, SC (coupon-paying security under a market-value root, coupons/costs on a grid); 3-4 dates; arbitrary prior portfolio + K=2 '
-             'operation sequences; fractional and whole-unit; commission uninterpreted F(q,p) (no sizing search) or 0.2% of notional; bid/offer on',
+             'operation sequences; fractional and whole-unit; commission uninterpreted F(q,p) (no sizing search) or 0.2% of notional; bid/offer on; '
+             'whole Backtest.run over a user algo trading with update=False (5 scripts of security-level trades, closes and flows with symbolic amounts, '
+             'with and without a final refresh by the algo)',
     'thorough': 'adds S4, S5 and K=3 on S1',
 }
 ASSUMPTIONS = ['paths on which the root goes bankrupt end (liquidation is C16)']
@@ -79,7 +81,88 @@ def h_conserve(run, cfg):
                        mtm + g.flows.get(di, 0.0) + g.nonflows.get(di, 0.0) + carry(w, di - 1) - cost, EPS_MONEY, 'recorded-values-reconcile', 'date %d' % di)
 
 
-HARNESSES = {'conserve': h_conserve}
+def h_backtest(run, cfg):
+    """A whole Backtest.run over a user algo that trades without refreshing the tree (update=False everywhere): what the run records for
+    every date must reconcile with the trades the algo made (the harness keeps its own book of them).  Scripts never close a child they traded
+    earlier on the same date: close() sizes itself from the child's value, which update=False deliberately leaves unrefreshed (documented contract)."""
+    B = bt()
+    C = B.core
+    from harness.common import dates, frame
+    n = cfg.get('ndates', 4)
+    dts = dates(n)
+    P = {'a': [100.0, 105.0, 95.0, 101.5, 98.0], 'b': [37.5, 33.0, 41.25, 40.0, 42.5]}
+    data = frame(run, dts, ['a', 'b'], lambda i, c: P[c][i])
+    rate = 0.001953125
+    script = cfg['script']                     # list of [date index, kind, ...]
+    book = {'pos': {'a': 0.0, 'b': 0.0}, 'cash': None, 'fee': {}, 'flow': {}}
+    args = {}
+
+    class Trader(B.Algo):
+        def __call__(self, target):
+            i = list(dts).index(target.now)
+            for k, step in enumerate(script):
+                if step[0] != i:
+                    continue
+                kind = step[1]
+                if kind == 't':
+                    c = step[2]
+                    q = args.setdefault(k, run.real('q%d' % k, -300, 300))
+                    target[c].transact(q, update=False)
+                elif kind == 'c':
+                    c = step[2]
+                    q = -book['pos'][c]
+                    target.close(c, update=False)
+                elif kind == 'adj':
+                    x = args.setdefault(k, run.real('x%d' % k, -10000, 10000))
+                    target.adjust(x, update=False)
+                    book['cash'] = book['cash'] + x
+                    book['flow'][i] = book['flow'].get(i, 0.0) + x
+                    continue
+                p = P[c][i]
+                f = rate * abs(q) * p
+                if not bool(abs(q) >= 1e-16):
+                    continue
+                book['pos'][c] = book['pos'][c] + q
+                book['cash'] = book['cash'] - q * p - f
+                book['fee'][i] = book['fee'].get(i, 0.0) + f
+            if cfg.get('finish'):
+                target.root.update(target.now)
+            return True
+    s = B.Strategy('s', [Trader()], [C.Security('a'), C.Security('b')])
+    cap = run.real('cap', 10 ** 6, 10 ** 7)
+    book['cash'] = cap
+    t = B.Backtest(s, data, initial_capital=cap, integer_positions=False, commissions=lambda q, p: rate * abs(q) * p)
+    snaps = {}
+    orig_run = t.strategy.run
+
+    def spy_run():
+        orig_run()
+        i = list(dts).index(t.strategy.now)
+        snaps[i] = (dict(book['pos']), book['cash'])
+    t.strategy.run = spy_run
+    t.run()
+    st = t.strategy
+    if st.bankrupt:
+        run.end('bankrupt')
+    prev = None
+    for i, d in enumerate(dts):
+        pos, cash = snaps[i]
+        val = cash + pos['a'] * P['a'][i] + pos['b'] * P['b'][i]
+        run.check_near(st.values[d], val, EPS_MONEY, 'recorded-value=book', 'date %d' % i)
+        run.check_near(st.cash[d], cash, EPS_MONEY, 'recorded-cash=book', 'date %d' % i)
+        run.check_near(st.fees[d], book['fee'].get(i, 0.0), EPS_MONEY, 'recorded-fees=commissions-of-the-date', 'date %d' % i)
+        run.check_near(st.flows[d], book['flow'].get(i, 0.0) + (cap if i == 0 else 0.0) * 0, EPS_MONEY, 'recorded-flows=injected', 'date %d' % i)
+        for c in ('a', 'b'):
+            run.check_near(st[c].positions[d], pos[c], 1e-9, 'recorded-position=book', '%s date %d' % (c, i))
+        if prev is not None:
+            ppos, pcash, pval = prev
+            mtm = ppos['a'] * (P['a'][i] - P['a'][i - 1]) + ppos['b'] * (P['b'][i] - P['b'][i - 1])
+            run.check_near(st.values[d] - st.values[dts[i - 1]], mtm + book['flow'].get(i, 0.0) - book['fee'].get(i, 0.0), EPS_MONEY,
+                           'date-change=mark-to-market+flows-costs', 'date %d' % i)
+        prev = (pos, cash, val)
+
+
+HARNESSES = {'conserve': h_conserve, 'backtest': h_backtest}
 WITNESS_CAP = {'quick': 120, 'thorough': 300}
 
 
@@ -123,6 +206,10 @@ def plan(tier):
             for cfg in _cfgs('S1', seq, integer, tier)[:1]:
                 cfg.update(pgrid='zero', ndates=4, tail_next=2)
                 tasks.append(dict(harness='conserve', cfg=cfg, opts=opts))
+    # whole backtests over a user algo that never refreshes the tree itself
+    for script in ([[1, 't', 'a']], [[0, 't', 'a'], [2, 'c', 'a']], [[1, 't', 'a'], [1, 't', 'b'], [3, 'adj']], [[0, 'adj'], [1, 't', 'b'], [2, 'c', 'b']], [[1, 't', 'b'], [2, 't', 'a'], [2, 'c', 'b']], [[3, 't', 'b']]):
+        for finish in (0, 1):
+            tasks.append(dict(harness='backtest', cfg=dict(script=script, finish=finish), opts=opts))
     if not quick:
         for seq in itertools.product(alphabet('S1'), repeat=3):
             for cfg in _cfgs('S1', seq, 0, tier)[:1]:
